@@ -42,7 +42,8 @@ import (
 
 type repoLayout struct {
 	Ents   []string          // in a fixed order, parents before children
-	Parent map[string]string // "" for roots
+	Parent map[string]string // "" for roots; the issuer relation at the start (the user may edit it: SetIssuer)
+	Alt    map[string][]string // the issuers the user may write into an entity's configuration (MCRepo: ChainAlt, ...)
 	Path   map[string]string // config file path per entity
 }
 
@@ -52,12 +53,15 @@ func repoShape(name string) repoLayout {
 	case "chain":
 		l.Parent = map[string]string{"r": "", "s": "r", "l": "s"}
 		l.Path = map[string]string{"r": "r.yaml", "s": "sub/s.yml", "l": "sub/deep/l.json"}
+		l.Alt = map[string][]string{"s": {"r", ""}, "l": {"s", "r"}}
 	case "star":
 		l.Parent = map[string]string{"r": "", "s": "r", "l": "r"}
 		l.Path = map[string]string{"r": "ca/r.yaml", "s": "s.yaml", "l": "leafs/l.YAML"}
+		l.Alt = map[string][]string{"s": {"r"}, "l": {"r", "s"}}
 	case "two":
 		l.Parent = map[string]string{"r": "", "s": "r", "l": ""}
 		l.Path = map[string]string{"r": "r.json", "s": "s.yaml", "l": "other/l.yaml"}
+		l.Alt = map[string][]string{"s": {"r"}, "l": {"", "s"}}
 	}
 	return l
 }
@@ -67,17 +71,9 @@ func (l repoLayout) artPath(e string) string {
 	return p[:strings.LastIndex(p, ".")] + ".pem"
 }
 
-func (l repoLayout) children(e string) []string {
-	var out []string
-	for _, x := range l.Ents {
-		if l.Parent[x] == e {
-			out = append(out, x)
-		}
-	}
-	return out
-}
-
-func (l repoLayout) isLeaf(e string) bool { return len(l.children(e)) == 0 }
+// r and s are CAs whatever the issuer relation currently is, l never is (an edit of the issuer relation must not
+// change anybody else's configuration)
+func isCA(e string) bool { return e != "l" }
 
 var repoFeature = map[string]string{"r": "static", "s": "relative", "l": "manip"}
 
@@ -93,7 +89,7 @@ func repoProfileText(p int) []byte {
 
 func usesProfile(e string) bool { return e == "l" }
 
-func (l repoLayout) configText(e string, c int) []byte {
+func (l repoLayout) configText(e string, c int, parent string) []byte {
 	m := map[string]any{
 		"version": 1,
 		"subject": fmt.Sprintf("CN=%s v%d, O=Repo Model, C=DE", e, c),
@@ -101,15 +97,15 @@ func (l repoLayout) configText(e string, c int) []byte {
 	if usesProfile(e) {
 		m["profile"] = "shared"
 	}
-	if p := l.Parent[e]; p != "" {
-		m["issuer"] = p
+	if parent != "" {
+		m["issuer"] = parent
 	}
 	exts := []any{
 		map[string]any{"subjectKeyIdentifier": map[string]any{"content": "hash"}},
 		map[string]any{"authorityKeyIdentifier": map[string]any{"content": map[string]any{"id": "hash"}}},
 		map[string]any{"custom": map[string]any{"oid": "1.3.6.1.4.1.99999.1", "raw": fmt.Sprintf("!binary:%s", b64([]byte{byte(c)}))}},
 	}
-	if !l.isLeaf(e) {
+	if isCA(e) {
 		exts = append(exts, map[string]any{"basicConstraints": map[string]any{"critical": true, "content": map[string]any{"ca": true}}})
 	}
 	m["extensions"] = exts
@@ -157,9 +153,11 @@ type absArt struct {
 	Exists  bool   `json:"exists"`
 	Hash    int    `json:"hash"`
 	Hashp   int    `json:"hashp"`
+	Hashi   string `json:"hashi"` // the issuer the hashed configuration names
 	Cert    bool   `json:"cert"`
 	Certc   int    `json:"certc"`
 	Certp   int    `json:"certp"`
+	Iss     string `json:"iss"` // the entity the certificate's issuer DN names ("" = itself)
 	Issc    int    `json:"issc"`
 	Key     string `json:"key"`
 	Sigok   bool   `json:"sigok"`
@@ -169,8 +167,9 @@ type absArt struct {
 type absState struct {
 	Cfgc     map[string]int    `json:"cfgc"`
 	Prof     int               `json:"prof"`
+	Par      map[string]string `json:"par"`
 	CfgNewer map[string]bool   `json:"cfgNewer"`
-	IssNewer map[string]bool   `json:"issNewer"`
+	Mt       []string          `json:"mt"` // the entities that have an artifact file, oldest file first
 	Art      map[string]absArt `json:"art"`
 	Last     string            `json:"last"`
 	Flags    []string          `json:"flags"`
@@ -203,7 +202,18 @@ type repoWorld struct {
 	l    repoLayout
 	fs   *simfs.FS
 	cfgc map[string]int
+	par  map[string]string
 	prof int
+}
+
+func (w *repoWorld) children(e string) []string {
+	var out []string
+	for _, x := range w.l.Ents {
+		if w.par[x] == e {
+			out = append(out, x)
+		}
+	}
+	return out
 }
 
 // hash text -> content value, learned from what was seen being written; must stay a function both ways
@@ -213,8 +223,8 @@ type hashTable struct {
 	Clash  []string
 }
 
-func (h *hashTable) learn(e string, c int, p int, text string) {
-	ec := fmt.Sprintf("%s/%d/%d", e, c, p)
+func (h *hashTable) learn(e string, c int, p int, issuer string, text string) {
+	ec := fmt.Sprintf("%s/%d/%d/%s", e, c, p, issuer)
 	if old, ok := h.byEC[ec]; ok && old != text {
 		h.Clash = append(h.Clash, fmt.Sprintf("same configuration %s hashed to %s and %s", ec, old, text))
 	}
@@ -225,7 +235,21 @@ func (h *hashTable) learn(e string, c int, p int, text string) {
 }
 
 var rxPlanLine = regexp.MustCompile(`Entity '([a-z]+)' will be (?:created|overwritten)`)
-var rxContent = regexp.MustCompile(`CN=[a-z]+ v([0-9]+)`)
+var rxContent = regexp.MustCompile(`CN=([a-z]+) v([0-9]+)`)
+
+// the entity a DN of this model names
+func dnEntity(raw []byte) string {
+	var rdn pkix.RDNSequence
+	if _, err := asn1.Unmarshal(raw, &rdn); err != nil {
+		return ""
+	}
+	var n pkix.Name
+	n.FillFromRDNSequence(&rdn)
+	if m := rxContent.FindStringSubmatch("CN=" + n.CommonName); m != nil {
+		return m[1]
+	}
+	return ""
+}
 
 func dnContent(raw []byte) (int, bool) {
 	var rdn pkix.RDNSequence
@@ -239,17 +263,18 @@ func dnContent(raw []byte) (int, bool) {
 		return 0, false
 	}
 	var c int
-	fmt.Sscanf(m[1], "%d", &c)
+	fmt.Sscanf(m[2], "%d", &c)
 	return c, true
 }
 
 func (w *repoWorld) project(ht *hashTable) (*absState, map[string]*artFacts) {
-	s := &absState{Prof: w.prof, Cfgc: map[string]int{}, CfgNewer: map[string]bool{}, IssNewer: map[string]bool{}, Art: map[string]absArt{}, Flags: []string{}}
+	s := &absState{Prof: w.prof, Cfgc: map[string]int{}, Par: map[string]string{}, CfgNewer: map[string]bool{}, Mt: []string{}, Art: map[string]absArt{}, Flags: []string{}}
 	facts := map[string]*artFacts{}
 	certs := map[string]*project.Cert{}
 	pems := map[string]project.PemFile{}
 	for _, e := range w.l.Ents {
 		s.Cfgc[e] = w.cfgc[e]
+		s.Par[e] = w.par[e]
 		f, ok := w.fs.Files[w.l.artPath(e)]
 		a := absArt{Hash: noHash, Key: "none"}
 		fa := &artFacts{}
@@ -260,7 +285,10 @@ func (w *repoWorld) project(ht *hashTable) (*absState, map[string]*artFacts) {
 			pems[e] = p
 			if p.HasHash {
 				if ec, known := ht.byText[p.HashText]; known && strings.HasPrefix(ec, e+"/") {
-					fmt.Sscanf(ec[len(e)+1:], "%d/%d", &a.Hash, &a.Hashp)
+					parts := strings.Split(ec, "/")
+					fmt.Sscanf(parts[1], "%d", &a.Hash)
+					fmt.Sscanf(parts[2], "%d", &a.Hashp)
+					a.Hashi = parts[3]
 				} else {
 					fa.HashUnknown = true
 					a.Hash = 98
@@ -275,6 +303,9 @@ func (w *repoWorld) project(ht *hashTable) (*absState, map[string]*artFacts) {
 					a.Cert = true
 					a.Certc, _ = dnContent(c.SubjectRaw)
 					a.Issc, _ = dnContent(c.IssuerRaw)
+					if a.Iss = dnEntity(c.IssuerRaw); a.Iss == e {
+						a.Iss = ""
+					}
 					a.Expired = c.NotAfter.Before(time.Now())
 					for _, x := range c.Exts {
 						if x.OID == "1.3.6.1.4.1.99999.2" && len(x.Value) == 1 {
@@ -311,17 +342,32 @@ func (w *repoWorld) project(ht *hashTable) (*absState, map[string]*artFacts) {
 		s.Art[e] = a
 	}
 	for _, e := range w.l.Ents {
-		a := s.Art[e]
-		p := w.l.Parent[e]
-		s.IssNewer[e] = false
-		if p != "" && a.Exists && s.Art[p].Exists {
-			s.IssNewer[e] = w.fs.Files[w.l.artPath(p)].MTick > w.fs.Files[w.l.artPath(e)].MTick
+		if s.Art[e].Exists {
+			s.Mt = append(s.Mt, e)
 		}
+	}
+	sort.SliceStable(s.Mt, func(i, j int) bool {
+		return w.fs.Files[w.l.artPath(s.Mt[i])].MTick < w.fs.Files[w.l.artPath(s.Mt[j])].MTick
+	})
+	for _, e := range w.l.Ents {
+		a := s.Art[e]
+		p := w.par[e]
 		c := certs[e]
 		if c == nil {
 			continue
 		}
 		fa := facts[e]
+		// sigok: under the key of the current certificate of the entity the issuer DN names
+		named := c
+		if a.Iss != "" {
+			named = certs[a.Iss]
+		}
+		if named != nil {
+			if pk, err := named.PubKey(); err == nil {
+				a.Sigok, _ = c.VerifiedBy(pk)
+			}
+		}
+		// the byte-level chain facts are about the configured issuer
 		var issuer *project.Cert
 		if p == "" {
 			issuer = c
@@ -329,9 +375,6 @@ func (w *repoWorld) project(ht *hashTable) (*absState, map[string]*artFacts) {
 			issuer = certs[p]
 		}
 		if issuer != nil {
-			if pk, err := issuer.PubKey(); err == nil {
-				a.Sigok, _ = c.VerifiedBy(pk)
-			}
 			fa.DnBytesOK = bytes.Equal(c.IssuerRaw, issuer.SubjectRaw)
 			for _, x := range c.Exts {
 				if x.OID == "2.5.29.35" {
@@ -363,6 +406,7 @@ type repoAct struct {
 	Name    string   `json:"name"`
 	E       string   `json:"e"`
 	C       int      `json:"c"`
+	P       string   `json:"p"` // SetIssuer: the new issuer
 	Cut     string   `json:"cut"`
 	Fl      []string `json:"fl"`
 	Plan    []string `json:"plan"`
@@ -597,7 +641,7 @@ func (x *repoExec) learnHashes(w *repoWorld, planned []string) {
 		if f, ok := w.fs.Files[x.l.artPath(e)]; ok {
 			p := project.ParsePem(f.Data)
 			if p.HasHash && p.Cert != nil { // a complete write of this run
-				x.ht.learn(e, w.cfgc[e], profOf(w, e), p.HashText)
+				x.ht.learn(e, w.cfgc[e], profOf(w, e), w.par[e], p.HashText)
 			}
 		}
 	}
@@ -605,7 +649,7 @@ func (x *repoExec) learnHashes(w *repoWorld, planned []string) {
 		p := project.ParsePem(w.fs.FaultContent)
 		for _, e := range x.l.Ents {
 			if x.l.artPath(e) == w.fs.FaultPath && p.HasHash {
-				x.ht.learn(e, w.cfgc[e], profOf(w, e), p.HashText)
+				x.ht.learn(e, w.cfgc[e], profOf(w, e), w.par[e], p.HashText)
 			}
 		}
 	}
@@ -620,9 +664,12 @@ func profOf(w *repoWorld, e string) int {
 
 // perform one action on a copy of the world; returns the resulting world and the logged line
 func (x *repoExec) perform(w *repoWorld, pre *absState, preFacts map[string]*artFacts, a repoAct, depth int) (*repoWorld, *repoLine) {
-	nw := &repoWorld{l: w.l, fs: w.fs.Clone(), cfgc: map[string]int{}, prof: w.prof}
+	nw := &repoWorld{l: w.l, fs: w.fs.Clone(), cfgc: map[string]int{}, par: map[string]string{}, prof: w.prof}
 	for k, v := range w.cfgc {
 		nw.cfgc[k] = v
+	}
+	for k, v := range w.par {
+		nw.par[k] = v
 	}
 	obs := repoObs{Result: "ok", Changes: []string{}, Pre: preFacts}
 	last := "env"
@@ -635,9 +682,12 @@ func (x *repoExec) perform(w *repoWorld, pre *absState, preFacts map[string]*art
 	switch a.Name {
 	case "Edit":
 		nw.cfgc[a.E] = a.C
-		nw.fs.Put(x.l.Path[a.E], x.l.configText(a.E, a.C))
+		nw.fs.Put(x.l.Path[a.E], x.l.configText(a.E, a.C, nw.par[a.E]))
+	case "SetIssuer":
+		nw.par[a.E] = a.P
+		nw.fs.Put(x.l.Path[a.E], x.l.configText(a.E, nw.cfgc[a.E], a.P))
 	case "Touch":
-		nw.fs.Put(x.l.Path[a.E], x.l.configText(a.E, nw.cfgc[a.E]))
+		nw.fs.Put(x.l.Path[a.E], x.l.configText(a.E, nw.cfgc[a.E], nw.par[a.E]))
 	case "DeleteArt":
 		nw.fs.Remove(art)
 	case "Truncate":
@@ -652,7 +702,11 @@ func (x *repoExec) perform(w *repoWorld, pre *absState, preFacts map[string]*art
 		stripped := append(append([]byte{}, content[:i]...), content[j+len("-----END PRIVATE KEY-----\n"):]...)
 		nw.fs.Put(art, stripped)
 	case "Replace":
-		nw.fs.Put(art, foreignCertAndKey(fmt.Sprintf("%s v%d", a.E, nw.cfgc[a.E])))
+		prof := -1 // the user-supplied certificate is made for the current effective configuration (profile part included)
+		if usesProfile(a.E) {
+			prof = nw.prof
+		}
+		nw.fs.Put(art, foreignCertAndKey(fmt.Sprintf("%s v%d", a.E, nw.cfgc[a.E]), prof))
 	case "MakeCsr":
 		nw.fs.Put(art, foreignCsr(fmt.Sprintf("%s v%d", a.E, nw.cfgc[a.E])))
 	case "EditProfile":
@@ -662,7 +716,7 @@ func (x *repoExec) perform(w *repoWorld, pre *absState, preFacts map[string]*art
 		// time passes: the same certificate, but its validity has ended; the file keeps its modification time
 		old := nw.fs.Files[art]
 		issuerArt := art
-		if p := x.l.Parent[a.E]; p != "" {
+		if p := nw.par[a.E]; p != "" {
 			issuerArt = x.l.artPath(p)
 		}
 		if exp := expiredTwin(old.Data, nw.fs.Files[issuerArt].Data); exp != nil {
@@ -772,11 +826,14 @@ func foreignKey() *ecdsa.PrivateKey {
 	return k
 }
 
-func foreignCertAndKey(cn string) []byte {
+func foreignCertAndKey(cn string, prof int) []byte {
 	k := foreignKey()
 	tmpl := &x509.Certificate{SerialNumber: big.NewInt(4242), Subject: pkix.Name{CommonName: cn, Organization: []string{"Foreign"}},
 		NotBefore: time.Date(2020, 1, 1, 0, 0, 0, 0, time.UTC), NotAfter: time.Date(2045, 1, 1, 0, 0, 0, 0, time.UTC),
 		IsCA: true, BasicConstraintsValid: true, KeyUsage: x509.KeyUsageCertSign}
+	if prof >= 0 {
+		tmpl.ExtraExtensions = []pkix.Extension{{Id: asn1.ObjectIdentifier{1, 3, 6, 1, 4, 1, 99999, 2}, Value: []byte{byte(prof)}}}
+	}
 	der, err := x509.CreateCertificate(rand.Reader, tmpl, tmpl, &k.PublicKey, k)
 	if err != nil {
 		panic(err)
@@ -830,11 +887,25 @@ func (x *repoExec) envActions(s *absState, enabled map[string]bool, contents int
 		if enabled["Replace"] {
 			out = append(out, repoAct{Name: "Replace", E: e})
 		}
-		if enabled["MakeCsr"] && x.l.isLeaf(e) && x.l.Parent[e] != "" {
+		isLeaf := true
+		for _, y := range x.l.Ents {
+			isLeaf = isLeaf && s.Par[y] != e
+		}
+		if enabled["MakeCsr"] && isLeaf && s.Par[e] != "" {
 			out = append(out, repoAct{Name: "MakeCsr", E: e})
 		}
-		if enabled["Expire"] && a.Cert && !a.Expired && a.Sigok && a.Key == "key" {
-			p := x.l.Parent[e]
+		if enabled["SetIssuer"] {
+			for _, p := range x.l.Alt[e] {
+				if p == s.Par[e] {
+					continue
+				}
+				if (p == "" && a.Key != "csr") || (p != "" && s.Art[p].Key != "csr") {
+					out = append(out, repoAct{Name: "SetIssuer", E: e, P: p})
+				}
+			}
+		}
+		if enabled["Expire"] && a.Cert && !a.Expired && a.Sigok && a.Key == "key" && a.Iss == s.Par[e] {
+			p := s.Par[e]
 			if (p == "" && a.Issc == a.Certc) || (p != "" && s.Art[p].Cert && s.Art[p].Key == "key" && a.Issc == s.Art[p].Certc) {
 				out = append(out, repoAct{Name: "Expire", E: e})
 			}
@@ -907,11 +978,12 @@ func cmdRepo(args []string) int {
 		}
 	}
 
-	world := &repoWorld{l: l, fs: simfs.New(), cfgc: map[string]int{}}
+	world := &repoWorld{l: l, fs: simfs.New(), cfgc: map[string]int{}, par: map[string]string{}}
 	world.fs.Put(repoProfilePath, repoProfileText(0))
 	for _, e := range l.Ents {
 		world.cfgc[e] = 0
-		world.fs.Put(l.Path[e], l.configText(e, 0))
+		world.par[e] = l.Parent[e]
+		world.fs.Put(l.Path[e], l.configText(e, 0, l.Parent[e]))
 	}
 	// decoys that must never be touched
 	world.fs.Put("README.txt", []byte("not a config\n"))
@@ -950,7 +1022,10 @@ func cmdRepo(args []string) int {
 
 	if *randomWalks > 0 {
 		for i := 0; i < *randomWalks; i++ {
-			wd := &repoWorld{l: l, fs: world.fs.Clone(), cfgc: map[string]int{"r": 0, "s": 0, "l": 0}, prof: 0}
+			wd := &repoWorld{l: l, fs: world.fs.Clone(), cfgc: map[string]int{"r": 0, "s": 0, "l": 0}, par: map[string]string{}, prof: 0}
+			for _, e := range l.Ents {
+				wd.par[e] = l.Parent[e]
+			}
 			st, facts := wd.project(x.ht)
 			st.Last = "none"
 			for step := 0; step < *walkLen; step++ {
